@@ -71,8 +71,8 @@ PROPS = {
         "assumptions": ["file replica client only", "litestream's background monitors are off; the harness is the only caller (schedules at statement granularity)",
                         "reference image = SQLite's own recovery+checkpoint of a copy of (db, db-wal)"],
         "runs": [
-            {"name": "histories", "test": "TestProp_C01", "kind": "rapid", "checks_quick": 600, "checks_thorough": 20000, "shards": 6},
-            {"name": "interleaved", "test": "TestProp_C01I", "kind": "rapid", "checks_quick": 400, "checks_thorough": 20000, "shards": 6},
+            {"name": "histories", "test": "TestProp_C01", "kind": "rapid", "checks_quick": 600, "checks_thorough": 5000, "shards": 6},
+            {"name": "interleaved", "test": "TestProp_C01I", "kind": "rapid", "checks_quick": 400, "checks_thorough": 5000, "shards": 6},
         ],
     },
     "C02": {
@@ -92,7 +92,7 @@ PROPS = {
         "assumptions": ["schedules are enumerated at statement granularity (the granularity at which SQLite makes frames visible); preemptive concurrency is C12's",
                         "file replica client only"],
         "runs": [
-            {"name": "histories", "test": "TestProp_C02", "kind": "rapid", "checks_quick": 400, "checks_thorough": 15000, "shards": 6},
+            {"name": "histories", "test": "TestProp_C02", "kind": "rapid", "checks_quick": 400, "checks_thorough": 5000, "shards": 6},
         ],
     },
     "C20": {
@@ -131,7 +131,7 @@ PROPS = {
         "runs": [
             {"name": "corpus-identity", "test": "TestCorpus_C09", "kind": "plain", "shards": 1},
             {"name": "mutations", "test": "TestProp_C09", "kind": "rapid", "checks_quick": 60000, "checks_thorough": 1500000},
-            {"name": "nativefuzz", "test": "FuzzC09", "kind": "fuzz", "tiers": ["thorough"], "shards": 1, "fuzztime_thorough": "600s", "cwd": "/verif/harness/props", "timeout_thorough": 1200},
+            {"name": "nativefuzz", "test": "FuzzC09", "kind": "fuzz", "tiers": ["thorough"], "shards": 1, "fuzztime_thorough": "600s", "cwd": "harness/props", "timeout_thorough": 1200},
         ],
     },
     "C13": {
@@ -149,7 +149,7 @@ PROPS = {
                  "distinct = hash of (config, abstracted ops, k)."),
         "assumptions": ["monitors off: the harness issues the syncs", "CheckpointInterval only takes values whose outcome is independent of test speed"],
         "runs": [
-            {"name": "histories", "test": "TestProp_C13", "kind": "rapid", "checks_quick": 500, "checks_thorough": 20000, "shards": 6},
+            {"name": "histories", "test": "TestProp_C13", "kind": "rapid", "checks_quick": 500, "checks_thorough": 10000, "shards": 6},
         ],
     },
     "C14": {
@@ -166,7 +166,7 @@ PROPS = {
                  "litestream checkpoint ran including a PASSIVE one (barrier transaction rolled back); distinct = hash of (config, abstracted ops)."),
         "assumptions": ["busy results of application RESTART/TRUNCATE checkpoints may differ (documented effect of litestream's read lock) and are not compared"],
         "runs": [
-            {"name": "paired-histories", "test": "TestProp_C14", "kind": "rapid", "checks_quick": 400, "checks_thorough": 15000, "shards": 6},
+            {"name": "paired-histories", "test": "TestProp_C14", "kind": "rapid", "checks_quick": 400, "checks_thorough": 6000, "shards": 6},
         ],
     },
     "C06": {
@@ -183,7 +183,7 @@ PROPS = {
                  "distinct = hash of (config, abstracted ops)."),
         "assumptions": ["file replica client only"],
         "runs": [
-            {"name": "histories", "test": "TestProp_C06", "kind": "rapid", "checks_quick": 400, "checks_thorough": 15000, "shards": 6},
+            {"name": "histories", "test": "TestProp_C06", "kind": "rapid", "checks_quick": 400, "checks_thorough": 8000, "shards": 6},
         ],
     },
     "C07": {
@@ -200,7 +200,7 @@ PROPS = {
                  "hash of (config, abstracted ops)."),
         "assumptions": ["file replica client only"],
         "runs": [
-            {"name": "histories", "test": "TestProp_C07", "kind": "rapid", "checks_quick": 400, "checks_thorough": 15000, "shards": 6},
+            {"name": "histories", "test": "TestProp_C07", "kind": "rapid", "checks_quick": 400, "checks_thorough": 8000, "shards": 6},
         ],
     },
     "C15": {
@@ -217,7 +217,7 @@ PROPS = {
                  "distinct = hash of (config, abstracted ops, target picks)."),
         "assumptions": ["file replica client: CreatedAt is the file mtime set from the LTX header timestamp"],
         "runs": [
-            {"name": "histories", "test": "TestProp_C15", "kind": "rapid", "checks_quick": 300, "checks_thorough": 10000, "shards": 6},
+            {"name": "histories", "test": "TestProp_C15", "kind": "rapid", "checks_quick": 300, "checks_thorough": 5000, "shards": 6},
         ],
     },
     "C04": {
@@ -233,7 +233,7 @@ PROPS = {
                  "rm-meta, reset-offline}. Non-trivial = an episode missed at least one commit that modified an existing page; distinct = hash of (config, abstracted ops)."),
         "assumptions": ["file replica client only", "litestream never runs concurrently with the down-time sub-history (that is what 'down' means)"],
         "runs": [
-            {"name": "histories", "test": "TestProp_C04", "kind": "rapid", "checks_quick": 500, "checks_thorough": 20000, "shards": 6},
+            {"name": "histories", "test": "TestProp_C04", "kind": "rapid", "checks_quick": 500, "checks_thorough": 6000, "shards": 6},
         ],
     },
     "C05": {
@@ -249,7 +249,7 @@ PROPS = {
                  "acknowledged; distinct = hash of (config, abstracted ops, plan)."),
         "assumptions": ["file replica client underneath the injector", "monitors off: the retry loops exercised are SyncAndWait's caller-driven retries and Close's shutdown retry"],
         "runs": [
-            {"name": "histories", "test": "TestProp_C05", "kind": "rapid", "checks_quick": 400, "checks_thorough": 15000, "shards": 6},
+            {"name": "histories", "test": "TestProp_C05", "kind": "rapid", "checks_quick": 400, "checks_thorough": 5000, "shards": 6},
         ],
     },
     "C10": {
@@ -336,7 +336,7 @@ PROPS = {
                  "Non-trivial = >=2 indices after the snapshot with a WAL split into >=2 segments, or a segment removed, or both formats present; distinct = hash of the case."),
         "assumptions": ["file replica client (CreatedAt = file mtime)", "segments end at commit boundaries, as 0.3.x produced them"],
         "runs": [
-            {"name": "layouts", "test": "TestProp_C19", "kind": "rapid", "checks_quick": 2400, "checks_thorough": 60000, "shards": 8},
+            {"name": "layouts", "test": "TestProp_C19", "kind": "rapid", "checks_quick": 2400, "checks_thorough": 40000, "shards": 8},
         ],
     },
     "C18": {
